@@ -225,6 +225,8 @@ class Normalizer:
         self.pshape = dict(self.shapes.params.get(self.name, {}))
         self.loop_shapes = {}
         self.inliner = None      # optional Inlining(...) : module-level helpers are replaced by their (loop-free, effect-free) normal form
+        self.attr_shapes = {}    # shapes of attributes of the first parameter (`self.<name>`), when a rule knows them
+        self.module_aliases = set()   # global names bound to the kernel modules: alias.f(x) is the call f(x)
 
     def refold(self, t, memo=None):
         """Re-apply the local simplifications that substitution of arguments can enable (constant index into a block / tuple)."""
@@ -906,6 +908,8 @@ class Normalizer:
             recv = self.expr(f.value, env)
             if recv[0] == 'mod':
                 return self.np_call(recv[1] + '.' + f.attr, args, kwargs)
+            if recv[0] == 'g' and recv[1] in self.module_aliases and f.attr in self.module_funcs:
+                return self.fn_call(f.attr, args, kwargs)
             m = f.attr
             if m == 'copy' and not args:
                 return recv                               # N2
@@ -1002,6 +1006,8 @@ class Normalizer:
             return self.pshape.get(name)
         if k == 'block':
             return t[1]
+        if k == 'attr' and len(t) == 3 and t[1] == ('p', 0) and t[2] in self.attr_shapes:
+            return self.attr_shapes[t[2]]
         if k in ('neg',):
             return self.shape(t[1])
         if k == 'T':
@@ -1096,6 +1102,10 @@ class Normalizer:
                     return None
                 if name == 'numpy.cross':
                     return (3,)
+                if name in ('numpy.hstack', 'numpy.concatenate') and args and args[0][0] in ('tuple', 'list') and (name == 'numpy.hstack' or not t[3]):
+                    parts = [self.shape(x) for x in args[0][1]]
+                    if parts and all(p_ is not None and len(p_) == 1 and isinstance(p_[0], int) for p_ in parts):
+                        return (sum(p_[0] for p_ in parts),)
                 if name in ('numpy.linalg.norm', 'numpy.trace', 'numpy.linalg.det', 'len', 'float', 'int', 'min', 'max', 'SafeClip'):
                     return ()
                 if name == 'numpy.linalg.svd' and len(args) == 1 and not t[3]:
